@@ -46,6 +46,11 @@ def big_value(rng):
     return "first\n" + "\n".join(" line %d %s" % (i, "y" * (k % 90)) for i in range(lines))
 
 
+def tail_char(rng):
+    """character stress: a character whose UTF-8 encoding ends in a chosen trailing byte 0x80..0xBF"""
+    return chr(0x400 + rng.randrange(64))
+
+
 def spellings(base):
     cap = base
     low = base.lower()
@@ -74,6 +79,8 @@ class Conc:
             cv = rng.sample(VALUE_POOL, len(vs))
             if rng.random() < 0.1:
                 cv[0] = big_value(rng)
+            if rng.random() < 0.3:
+                cv[-1] = "w" + tail_char(rng) + "\n l2 " + tail_char(rng) + "\n " + tail_char(rng)
         self.val = dict(zip(vs, cv))
         self.rval = {v: k for k, v in self.val.items()}
 
@@ -277,7 +284,7 @@ def record_trace(rng, nnames, nops):
         base = sorted(["%s-%03d" % (WORDS[i % len(WORDS)], i) for i in range(nnames)], key=str.lower)
     if rng.random() < 0.15:
         base = [stretch(rng, b) for b in base]
-    values = VALUE_POOL + ([big_value(rng)] if rng.random() < 0.2 else [])
+    values = VALUE_POOL + ([big_value(rng)] if rng.random() < 0.2 else []) + ["w" + tail_char(rng), "m\n x" + tail_char(rng)]
     rank = {b.lower(): i + 1 for i, b in enumerate(base)}
 
     def proj(d):
